@@ -531,6 +531,8 @@ impl Scheduler {
 
         // Clean up the wakers from the queue (should at least free our one)
         mem::drop(wakeup);
+        #[cfg(desync_verif)]
+        vsched::emit("wakeup-dropped");
         queue.core.lock().unwrap().wake_blocked.retain(|(waker, _ready)| waker.strong_count() > 0);
 
         // Return the result
